@@ -389,8 +389,11 @@ def loop_potential(ctx):
     f = repo.func(EM, "current_loop_vector_potential")
     T = AtomTable()
     ip = DimInterp(repo, T)
-    x, y, z = T.real("x"), T.real("y"), T.real("z")
-    env = {"positions": Cols([x, y, z]), "loop_center": Cols([Rat.const(T, 0)] * 3), "loop_radius": T.real("R", "pos"),
+    # the loop centre is symbolic: everything below is in coordinates relative to it
+    X, Y, Z = T.real("x"), T.real("y"), T.real("z")
+    cx, cy, cz = T.real("cx"), T.real("cy"), T.real("cz")
+    x, y, z = X - cx, Y - cy, Z - cz
+    env = {"positions": Cols([X, Y, Z]), "loop_center": Cols([cx, cy, cz]), "loop_radius": T.real("R", "pos"),
            "current": T.real("I"), "length_units": UnitStr("length"), "current_units": UnitStr("current")}
     ip.ext_overrides["scipy.constants.mu_0"] = None
     try:
